@@ -53,6 +53,7 @@ func Normalize(dir string, overlay map[string][]byte, baseline map[string]bool) 
 	if err != nil {
 		return nil, rep, err
 	}
+	p.Baseline = baseline
 	if len(baseline) == 0 {
 		return p, rep, nil
 	}
@@ -80,6 +81,7 @@ func Normalize(dir string, overlay map[string][]byte, baseline map[string]bool) 
 		}
 		rep.Inlined = append(rep.Inlined, inl...)
 		rep.Rounds = round + 1
+		np.Baseline = baseline
 		p, cur = np, next
 	}
 	p.Inline = rep
@@ -1457,6 +1459,17 @@ func BaselineKeys(p *Prog) []string {
 			return true
 		})
 	}
+	// functions of the shell framework ("sh:<name>")
+	for _, rel := range ShellFiles {
+		if f, err := ParseShell(p, rel); err == nil {
+			for name := range f.Funcs {
+				out = append(out, "sh:"+name)
+			}
+		}
+	}
 	sort.Strings(out)
 	return out
 }
+
+// ShellFiles are the bash files of the shell framework.
+var ShellFiles = []string{"frameworks/shell/hook.sh", "frameworks/shell/context.sh", "shell_lib.sh"}
